@@ -93,7 +93,14 @@ func (cg *caseGen) choose(ws []wk) string {
 
 // ---------------------------------------------------------------- leaves
 
+// layoutLits: longer ASCII literals with several line ends inside (a literal is matched rune by rune; a reader that
+// advances over it in one step has to get line AND column right: round 18, C02)
+var layoutLits = []string{"\n\n", "\r\n\r\n", "\n\n\n", "a\nb\nc", "x\n\ny", " \n \n ", "ab\ncd\n", "\n;\n;", "begin\n\nend", "a\r\nb\r\nc\r\n"}
+
 func (cg *caseGen) lit() *pvcase.Expr {
+	if cg.chance(0.04) {
+		return mkLit([]rune(pickStr(cg.r, layoutLits)), cg.chance(0.15))
+	}
 	var n int
 	switch x := cg.r.IntN(100); {
 	case x < 3:
